@@ -120,3 +120,38 @@ package configuration
 //@   ensures writtenCfgTerm == configuration.Status.Mastership.Term && writtenCfgMaster == configuration.Status.Mastership.Master && writtenCfgAppliedTerm == configuration.Status.Applied.Mastership.Term && writtenCfgState == configuration.Status.State && writtenCfgProposed == configuration.Status.Proposed.Index && writtenCfgCommitted == configuration.Status.Committed.Index && writtenCfgApplied == configuration.Status.Applied.Index && writtenCfgIndex == configuration.Index
 //@   ensures err == nil ==> cfgSnapshotted(configuration) && storedCfgCommitted == configuration.Status.Committed.Index && storedCfgApplied == configuration.Status.Applied.Index
 //@   ensures err != nil ==> !configuration.tracked && storedCfgCommitted == old(storedCfgCommitted) && storedCfgApplied == old(storedCfgApplied)
+
+// C15, write half: the store implementation over the atomix primitive. Every update is conditional on
+// the version the caller read (guards of the assumed contracts in /verif/contracts/lib/atomix.spec),
+// versions and revisions only grow, a record that was never read cannot be written, and the write
+// goes to the record's own key.
+//@ func (*configurationStore).Update(s, ctx, configuration) (err)
+//@   props C15
+//@   requires s != nil && s.configurations != nil && configuration != nil
+//@   ensures {C15} version-and-revision-grow: err == nil ==> configuration.Version > old(configuration.Version) && configuration.Revision == old(configuration.Revision) + 1
+//@   ensures {C15} unread-record-refused: old(configuration.Version) == 0 || old(configuration.Revision) == 0 ==> err != nil && condWrites == old(condWrites)
+//@   ensures {C15} one-conditional-write-to-own-key: condWrites <= old(condWrites) + 1 && inserts == old(inserts) && (condWrites > old(condWrites) ==> lastWriteKey == configuration.ID) && (err == nil ==> condWrites == old(condWrites) + 1)
+//@ func (*configurationStore).UpdateStatus(s, ctx, configuration) (err)
+//@   props C15
+//@   requires s != nil && s.configurations != nil && configuration != nil
+//@   ensures {C15} version-grows-revision-kept: err == nil ==> configuration.Version > old(configuration.Version) && configuration.Revision == old(configuration.Revision)
+//@   ensures {C15} unread-record-refused: old(configuration.Version) == 0 || old(configuration.Revision) == 0 ==> err != nil && condWrites == old(condWrites)
+//@   ensures {C15} one-conditional-write-to-own-key: condWrites <= old(condWrites) + 1 && inserts == old(inserts) && (condWrites > old(condWrites) ==> lastWriteKey == configuration.ID) && (err == nil ==> condWrites == old(condWrites) + 1)
+//@ func (*configurationStore).Create(s, ctx, configuration) (err)
+//@   props C15
+//@   requires s != nil && s.configurations != nil && configuration != nil
+//@   ensures {C15} only-new-records-are-created: old(configuration.Version) != 0 || old(configuration.Revision) != 0 ==> err != nil && inserts == old(inserts)
+//@   ensures {C15} created-record-is-versioned: err == nil ==> configuration.Revision == 1 && configuration.Version > 0 && inserts == old(inserts) + 1 && lastWriteKey == configuration.ID
+//@   ensures {C15} create-never-overwrites: condWrites == old(condWrites) && inserts <= old(inserts) + 1
+
+// the per-configuration value maps (committed/applied path values) are separate primitives: their
+// handling is not verified; these helpers do not touch the configuration record or the ghosts
+//@ func (*configurationStore).getCommitted(s, ctx, id) (m, err)
+//@   trusted
+//@   modifies nothing
+//@ func (*configurationStore).getApplied(s, ctx, id) (m, err)
+//@   trusted
+//@   modifies nothing
+//@ func (*configurationStore).store(s, ctx, store, values) (err)
+//@   trusted
+//@   modifies nothing
